@@ -688,7 +688,7 @@ func hashStr(s string) uint64 {
 
 func ruleText(prop string) string {
 	return "messages rendered from sshd's format strings with generated field values (account names incl. unicode and words of the message, IPv4/IPv6/zone ids/host names, ports, all key types and lower-case/underscore/'ssh'-prefixed names of the class [A-Za-z0-9_-], SHA256/MD5 fingerprints incl. '=' padding, key IDs with spaces/parentheses/'serial'/'(serial N)'/' from A port N'/partial ' ssh2: ' fragments (domain no_ssh_frag of C06_accepted_cert), forged fragments in the account of accepted lines, serials to 2^64-1, paths with spaces), " +
-		"hostile names (C17; incl. every prefix/suffix of sshd's own phrases, empty names, escape-looking text such as #012 \\n %0a &#10;, and letters whose upper/lower/title/folded form has another UTF-8 length - enumerated from the Unicode tables -, NFC/NFD pairs, ligatures, final sigma, Turkish i's, combining marks), runs of blanks and tabs inside key ids, paths, shells, reasons and account names, arbitrary bytes and systematic mutations, sshd's generic '<Accepted|Failed|Postponed|Partial> <method> for ...' shape with hostile method tokens (invalid UTF-8, NUL, empty, very long) and every recognised message with one token replaced by hostile bytes (C11), PID tokens (valid, signed, overflowing, empty, non-numeric), write failure, a writer that recovers after 1-2 rejected writes and cancelled hand-off modes (context cancelled before the line, or while the hand-off is blocked; C05, C19), framed delivery through SyslogIngester.Process (C07, C17, C11, a third of C06); " +
+		"hostile names (C17; incl. every prefix/suffix of sshd's own phrases, empty names, escape-looking text such as #012 \\n %0a &#10;, and letters whose upper/lower/title/folded form has another UTF-8 length - enumerated from the Unicode tables -, NFC/NFD pairs, ligatures, final sigma, Turkish i's, combining marks), runs of blanks and tabs inside key ids, paths, shells, reasons and account names, arbitrary bytes and systematic mutations, sshd's generic '<Accepted|Failed|Postponed|Partial> <method> for ...' shape with hostile method tokens (invalid UTF-8, NUL, empty, very long) every recognised message with one token replaced by hostile bytes (C11) and recognised messages inside envelopes (rsyslog 'message repeated N times: [ ...]' with N from 0 to beyond 1000, 'last message repeated', timestamp/host/tag, RFC 5424 and journald prefixes, a trailing [preauth], quotes, nestings, near misses; C11 C19), PID tokens (valid, signed, overflowing, empty, non-numeric), write failure, a writer that recovers after 1-2 rejected writes and cancelled hand-off modes (context cancelled before the line, or while the hand-off is blocked; C05, C19), framed delivery through SyslogIngester.Process (C07, C17, C11, a third of C06); " +
 		"all lines of a run go through ONE long-lived processor (NewSshdProcessor once, ProcessSshdLogEntry per line), lines are repeated (2-4 times in a row, A B A) and ORDER is an input (C17 C05 C11 C19: a case right after a genuine line of each recognised kind in rotation, with or without an unrecognised line in between; the follower every other round a failure line whose client-chosen name embeds a message of the kind just processed, cut at 100 bytes); one private counter registry for the run; the " + prop + " oracle is evaluated from the generated fields; non-trivial = the case makes the implementation write an event; distinct by (token, line, mode)"
 }
 
@@ -725,6 +725,12 @@ func genCaseMix(r *hutil.Rand, prop string, i int) (genLine, string, runMode) {
 		}
 		return genClientName(r), genPidToken(r, false), mode
 	case "C11":
+		if i%14 == 4 { // a recognised message inside an envelope (gen.go: genEnveloped), a third of them through the syslog ingester
+			if (i/14)%3 == 1 {
+				mode.Framed, mode.Pad = true, i%2
+			}
+			return genEnveloped(r, i/14), genPidToken(r, false), mode
+		}
 		switch i % 7 {
 		case 1: // client-chosen names handed over directly, edge names first
 			if (i/7)%2 == 0 {
@@ -785,6 +791,9 @@ func genCaseMix(r *hutil.Rand, prop string, i int) (genLine, string, runMode) {
 		case 0:
 			if i%12 == 6 {
 				return genGenericAuth(r, i/12), genPidToken(r, false), mode
+			}
+			if i%12 == 0 { // a recognised message inside an envelope (syslog repeat reduction, prefixes, suffixes; gen.go: genEnveloped)
+				return genEnveloped(r, i/12), genPidToken(r, false), mode
 			}
 			return genHostile(r), genPidToken(r, true), mode
 		case 1:
